@@ -1,17 +1,17 @@
 import Driver.Loop
-import TrustfallModel.Proofs.InterpSpec3.HypsDef3
+import TrustfallModel.Proofs.InterpSpec4.HypsDef3
 /-! Driver command `(hyps-c01 <schema> <data> <query text hex> <tree> <args>)` of the engine group:
 evaluates the decidable hypotheses of the C01 main theorem (`Props/C01Main.lean`; `Hyps` in
-`Proofs/InterpSpec/HypsDef.lean`, `Hyps3` in `Proofs/InterpSpec3/HypsDef3.lean`) and the fragment
+`Proofs/InterpSpec/HypsDef.lean`, `Hyps3` in `Proofs/InterpSpec4/HypsDef3.lean`) and the fragment
 classifier on one real request, so that every run measures on how many generated queries the
 theorem applies (non-vacuity):
 
-  `(hyps frag=<F0|F1|F2|F3> toir=<0|1> hyps=<0|1> noimports=<0|1> proved=<0|1>)`
+  `(hyps frag=<F0|F1|F2|F3> toir=<0|1> hyps=<0|1> impok=<0|1> proved=<0|1>)`
 
 `frag` the smallest fragment containing the query tree; `toir` the frontend model accepts the tree;
-`hyps` = `hypsB` for F0–F2 resp. `hyps3B` for F3; `noimports` = no fold of the compiled query
-imports a tag (`noImportsC`, the extra hypothesis of F3a); `proved` = one of the closed theorems
-`interp_eq_spec_F0 … F2`, `interp_eq_spec_F3a` applies with all its hypotheses. -/
+`hyps` = `hypsB` for F0–F2 resp. `hyps3B` for F3; `impok` = no fold of the compiled query imports a
+tag twice (`importsOKC`, the F-10 guard, second half of `Hyps3`); `proved` = the main theorem
+`interp_eq_spec` (resp. its instances `interp_eq_spec_F0 … F2`) applies with all its hypotheses. -/
 namespace TF.Driver
 open TF TF.Engine TF.InterpSpec
 
@@ -27,11 +27,11 @@ def handleC01Hyps : Handler
     let b (x : Bool) : String := if x then "1" else "0"
     match Frontend.toIR s q with
     | .ok ir =>
-      let noimp := noImportsC ir.rootComponent
+      let impok := importsOKC [] ir.rootComponent
       let hyps := if frag ≤ 2 then hypsB H frag q else hyps3B H q
-      let proved := hyps && (decide (frag ≤ 2) || noimp)
-      pure s!"(hyps frag=F{frag} toir=1 hyps={b hyps} noimports={b noimp} proved={b proved})"
-    | .error _ => pure s!"(hyps frag=F{frag} toir=0 hyps=0 noimports=0 proved=0)"
+      let proved := hyps && (decide (frag ≤ 2) || impok)
+      pure s!"(hyps frag=F{frag} toir=1 hyps={b hyps} impok={b impok} proved={b proved})"
+    | .error _ => pure s!"(hyps frag=F{frag} toir=0 hyps=0 impok=0 proved=0)"
   | _, _ => none
 
 end TF.Driver
